@@ -30,20 +30,42 @@ SPEC = {
 
 
 def string_table(ctx):
-    """(mnemonic, width) -> helper fn, from the string_instructions productions"""
+    """(mnemonic, width) -> (production index, helper fn).  The table is found by shape, not by name: any production
+    whose right-hand side is exactly <string mnemonic> <byte|word>; the helper is the instructions::* function its
+    action calls, or the function item its action returns (when the grammar hands the operation to the prefix
+    productions as a value)."""
+    from units import run_interp_production
     G = ctx.gram("interpreter")
     P = ctx.program
     out = {}
-    for k, p in enumerate(G.productions("string_instructions")):
-        terms = [s["name"].strip('"') for s in p["symbols"] if s["t"] == "term"]
-        ua = G.main_user_action(p["action"])
-        fn = G.action_fn(ua["idx"])
-        callee = None
-        for bi, t in M.calls_in(fn):
-            cid = t[1].get("id")
-            if cid in P.fns and P.fns[cid]["name"].startswith("instructions::"):
-                callee = P.fns[cid]
-        out[tuple(terms)] = (k, callee)
+    nts = set()
+    for nt in G.g["nonterminals"]:
+        if nt["name"].startswith("__"):
+            continue
+        for k, p in enumerate(nt["productions"]):
+            if len(p["symbols"]) != 2 or any(s["t"] != "term" for s in p["symbols"]):
+                continue
+            terms = [s["name"].strip('"') for s in p["symbols"]]
+            if terms[0] not in SPEC or terms[1] not in ("byte", "word"):
+                continue
+            ua = G.main_user_action(p["action"])
+            fn = G.action_fn(ua["idx"]) if ua.get("kind") == "user" else None
+            callee = None
+            if fn is not None:
+                for bi, t in M.calls_in(fn):
+                    cid = t[1].get("id")
+                    if cid in P.fns and P.fns[cid]["name"].startswith("instructions::"):
+                        callee = P.fns[cid]
+            if callee is None:
+                try:
+                    I, st, v, r = run_interp_production(ctx, nt["name"], k)
+                    if v is not None and v.kind == "fn" and len(v.ids) == 1:
+                        callee = P.fns.get(next(iter(v.ids)))
+                except Exception:  # noqa
+                    callee = None
+            out[tuple(terms)] = (k, callee)
+            nts.add(nt["name"])
+    string_table.nts = nts
     return out
 
 
@@ -246,20 +268,15 @@ def rep_rule(ctx, chk):
         prefix = terms[0]
         label = G.prod_label("string", k)
         where = f"{G.g['file']}:{p['line']}"
-        # pick one body that writes memory and moves pointers: movs byte if available, else the first alternative
-        si_prods = G.productions("string_instructions")
-        body = 0
-        for i, q in enumerate(si_prods):
-            t = [s["name"].strip('"') for s in q["symbols"] if s["t"] == "term"]
-            if t[:1] == ["cmps"] and prefix in ("repz", "repnz", "repe", "repne"):
-                body = i
-                break
-            if t[:1] == ["movs"] and prefix == "rep":
-                body = i
-                break
+        # the body: `movs byte` (it writes memory, moves both pointers and leaves the flags alone, so that the ZF the
+        # conditional prefixes test is the incoming one).  The table nonterminal is found by shape (string_table), so
+        # it does not matter whether the body is executed by its own production or handed to the prefix as a value.
+        tab = string_table(ctx)
+        table_nts = getattr(string_table, "nts", set())
+        movs_k = tab.get(("movs", "byte"), (0, None))[0]
 
-        def chooser(path, n, prods, body=body):
-            return body if n == "string_instructions" else None
+        def chooser(path, n, prods, movs_k=movs_k, table_nts=table_nts):
+            return movs_k if n in table_nts else None
 
         def with_cx(lo, hi):
             def pre(I, st):
@@ -283,7 +300,7 @@ def rep_rule(ctx, chk):
         if changed or stores or loads:
             chk.violation("C07.R6", label, "executes-with-cx-0",
                           f"with CX=0 the string step of `{prefix} ...` still executes once (changes {changed}, {len(stores)} store(s), {len(loads)} load(s)): "
-                          f"the nonterminal string_instructions runs its helper before the `{prefix}` action looks at CX, so CX=n runs n+1 times", where)
+                          f"the string step runs before the `{prefix}` action looks at CX, so CX=n runs n+1 times", where)
         else:
             chk.ok("C07.R6", f"{label}:cx0-nothing", "nothing executes")
         if outcome != ["NEXT"]:
@@ -295,9 +312,7 @@ def rep_rule(ctx, chk):
             chk.violation("C07.R6", label, "cx0-changes-cx", f"with CX=0 `{prefix}` changes CX to {cxv!r}", where)
         # CX >= 1
         zsplit = frozenset({("flag", FBIT["ZF"])}) if prefix != "rep" else frozenset()
-        # for the conditional prefixes the body (cmps) rewrites ZF, so the outcome is a function of the new ZF:
-        # analyse the prefix action alone by overriding the body with a no-op
-        ov = {"string_instructions": (lambda I, st, path: __import__("absint").UNIT)}
+        ov = None
 
         def one(asm, sp):
             a2 = dict(asm)
@@ -322,6 +337,11 @@ def rep_rule(ctx, chk):
                 chk.violation("C07.R6", label, f"outcome-zf{zf}", f"`{prefix}` with CX>=1{'' if zf is None else ', ZF=' + str(zf)} returns {outcome}, expected {want}", where)
             else:
                 chk.ok("C07.R6", u, str(outcome))
+            nst = len([e for e in I.events if e.kind == "mem" and e.op == "w"])
+            if nst == 1:
+                chk.ok("C07.R6", u + ":once", "the string step executes exactly once per issue")
+            else:
+                chk.violation("C07.R6", label, f"executes-{nst}-times", f"`{prefix} movs byte` with CX>=1 performs {nst} stores in one issue, expected exactly one element", where)
             wantcx = Lin.atom("cx").add(Lin(-1))
             if cxv.aff is None:
                 chk.undecided_("C07.R6", u + ":cx", "no exact form")
